@@ -335,7 +335,7 @@ class C05(Prop):
         vpools = {w: pool(vmax(w), rng) for w in WIDTHS}
 
         # --- exhaustive: all 2^7 flag combinations x 16 width combinations ---
-        reps = 4 if thorough else 1
+        reps = 8 if thorough else 1
         k = 0
         for _ in range(reps):
             for bits in range(128):
@@ -356,7 +356,7 @@ class C05(Prop):
                             yield Case({"op": "hdr_new", **a}, "valid", tag="config-all")
 
         # --- exhaustive: all 65536 values of (octet 0, octet 3) through the decoder ---
-        for rep in range(3 if thorough else 1):
+        for rep in range(6 if thorough else 2):
             tail = rbytes(rng, 24)
             d1, d2 = rng.getrandbits(8), rng.getrandbits(8)
             for o0 in range(256):
@@ -450,7 +450,7 @@ class C05(Prop):
         yield Case({"op": "hdr_pack", **a}, "any", tag="empty-seq")
 
         # --- setters ---
-        for _ in range(3000 if thorough else 400):
+        for _ in range(10000 if thorough else 400):
             a = rand_hdr(rng)
             b = rand_hdr(rng)
             n = {"n_" + f: b[f] for f in FLAGS}
@@ -469,7 +469,7 @@ class C05(Prop):
                 yield Case({"op": "hdr_set_flags", **a, **n}, "valid", tag="setter-single")
 
         # --- random full headers, suffixes, truncations, octet substitutions ---
-        n = 40000 if thorough else 4000
+        n = 150000 if thorough else 4000
         for i in range(n):
             a = rand_hdr(rng)
             yield Case({"op": "hdr_pack", **a, "via": i % 2}, "valid", tag="random")
@@ -489,7 +489,7 @@ class C05(Prop):
                         b = bytearray(raw + sfx)
                         b[pos] = v
                         yield dec_case(bytes(b), f"octet{pos}-substitution")
-        for _ in range(20000 if thorough else 3000):
+        for _ in range(60000 if thorough else 3000):
             ln = rng.randint(0, 40)
             b = bytearray(rbytes(rng, ln))
             if ln > 0 and rng.random() < 0.8:
@@ -501,7 +501,7 @@ class C05(Prop):
             yield Case({"op": "hdr_unpack_verify", "raw": hx(raw)}, "any", tag="random-octets")
 
         # --- verify_length_and_checksum ---
-        for i in range(6000 if thorough else 800):
+        for i in range(20000 if thorough else 800):
             a = rand_hdr(rng, dlen=rng.choice([0, 1, 2, 3, 4, 7, 16, rng.randint(0, 60)]))
             hdr = spec_pack(a)
             total = len(hdr) + a["dlen"]
